@@ -132,8 +132,12 @@ def constructor_facts(ctx, ci):
     """-> per constructor: table -> dict(grid_col, law_cols{col: method}, base, nclass_factor, grid_expr)"""
     prog = ctx.prog
     facts = {}
+    from ..inline import inlined
     for name, defs in ci.methods.items():
         fi = defs[-1]
+        if any(isinstance(s_, ast.Assign) and any(is_self_attr(t_) and t_.attr.startswith("_lut") for t_ in s_.targets)
+               for s_ in walk_function(fi.node)):
+            fi = inlined(prog, fi)          # grid construction may live in an extracted private helper
         body_assigns = [s for s in walk_function(fi.node) if isinstance(s, ast.Assign) and len(s.targets) == 1]
         tabs = {}
         cfg = None
